@@ -63,6 +63,9 @@ func main() {
 	func() {
 		defer func() {
 			if p := recover(); p != nil {
+				if _, ok := p.(abortBatch); ok {
+					return // a case left a goroutine stuck inside fan2go: the batch ends with what it has recorded
+				}
 				ctx.Violation("harness-panic", fmt.Sprintf("panic outside a guarded case: %v\n%s", p, debug.Stack()), nil)
 				ctx.Res.HarnessError = fmt.Sprintf("%v", p)
 			}
